@@ -39,9 +39,12 @@ KeysD == <<S("str", "a"), S("str", "b")>>
 KeysR == <<S("str", "n"), S("str", "v")>>
 KeysRC == <<S("str", "n"), S("str", "v"), S("str", "a")>>
 MembersD == <<S("str", "a"), S("str", "b")>>
+\* keys and set members that are integers, and strings spelled like them (one path text, two positions)
+KeysI == <<S("str", "a"), S("int", "0"), S("str", "0")>>
+MembersI == <<S("int", "1"), S("str", "1")>>
+ScalarsI == <<S("int", "1"), S("str", "a")>>
 Members1 == <<S("str", "a")>>
 
-ASSUME \A k \in 1..Len(KeyPool) : KeyPool[k].t = "str"     \* the emitted form carries key texts only
 
 (* ---- edits of the right document ---- *)
 RECURSIVE Rebuild(_, _, _, _)
@@ -64,7 +67,7 @@ EditInsert(d) == UNION {
   ELSE IF d[c].k = "map" THEN {With(d, c, [TreeOf(d, c) EXCEPT !.kids = Append(@, nt), !.keys = Append(@, KeyPool[k])]) :
                                  k \in {x \in 1..Len(KeyPool) : \A y \in 1..Len(d[c].keys) : d[c].keys[y] # KeyPool[x]}, nt \in Subs}
   ELSE IF d[c].k = "set" THEN {With(d, c, [TreeOf(d, c) EXCEPT !.kids = Append(@, NewScalar(SetPool[k].t, SetPool[k].v))]) :
-                                 k \in {x \in 1..Len(SetPool) : \A y \in 1..Len(d[c].kids) : d[d[c].kids[y]].v # SetPool[x].v}}
+                                 k \in {x \in 1..Len(SetPool) : \A y \in 1..Len(d[c].kids) : ~ScalarEq(d[d[c].kids[y]], SetPool[x])}}
   ELSE {} : c \in 1..Len(d)}
 EditSwap(d) == UNION {
   IF d[c].k \in {"seq", "map"} /\ Len(d[c].kids) > 1
@@ -152,7 +155,7 @@ MirroredTheorems == phase = "pair" => \A m \in ModesOf(doc, rd) :
 (* ---- emission of every pair with the mirrored report and its verdicts ---- *)
 CStep(st) == IF st.i = -1 THEN st.s ELSE st.i
 CPath(p) == [k \in 1..Len(p) |-> CStep(p[k])]
-CDoc(d) == [n \in 1..Len(d) |-> <<d[n].k, d[n].t, d[n].v, d[n].par, [k \in 1..Len(d[n].keys) |-> d[n].keys[k].v]>>]
+CDoc(d) == [n \in 1..Len(d) |-> <<d[n].k, d[n].t, d[n].v, d[n].par, [k \in 1..Len(d[n].keys) |-> <<d[n].keys[k].t, d[n].keys[k].v>>]>>]
 CEnt(e) == <<SubSeq(e.a, 1, 1), CPath(e.p), e.li, e.ri>>
 ModeCase(l, r, m) ==
   LET cfg == Cfg(m[1], m[2], Repaired) df == Diff(l, r, cfg)
